@@ -9,11 +9,13 @@ package uri
 
 import (
 	"io"
+	"net/http"
 	"net/url"
 	"strings"
 )
 
 var _ = url.PathEscape
+var _ http.Header
 
 //@ use strings
 //@ use join
@@ -941,6 +943,130 @@ func lastWire(log []string) string { return log[len(log)-1] }
 //@   loop 0 invariant mono:  vCbOK(f) == old(vCbOK(f))
 //@   loop 0 invariant acc:   vCbOK(f) ==> vSeqEq(vCbLog(f, "vals"), vCat(old(vCbLog(f, "vals")), splitS(d.header.Values(d.paramName)[0], ',')[:rangeindex+1]))
 
+// Cookie parameter decoder (uri/cookie_param_decoder.go): the value is the percent-decoding of the
+// cookie of that name; a cookie with a malformed escape is refused; arrays are its comma pieces.
+//@ func (d *cookieParamDecoder) DecodeValue() (v string, err error)
+//@   requires req: d.req != nil
+//@   ensures absent:  !specHasCookie(d.req, d.paramName) ==> err != nil
+//@   ensures present: specHasCookie(d.req, d.paramName) ==> (err == nil) == wellEscaped(specCookieValue(d.req, d.paramName))
+//@   ensures decoded: specHasCookie(d.req, d.paramName) && err == nil ==> v == pctDecode(specCookieValue(d.req, d.paramName))
+
+func specHasCookie(r *http.Request, name string) bool {
+	_, err := r.Cookie(name)
+	return err == nil
+}
+
+func specCookieValue(r *http.Request, name string) string {
+	c, err := r.Cookie(name)
+	if err != nil || c == nil {
+		return ""
+	}
+	return c.Value
+}
+
+//@ func (d *cookieParamDecoder) DecodeArray(f func(d Decoder) error) (err error)
+//@   callback f(d Decoder) log vals d.(constval).v
+//@   requires req: d.req != nil
+//@   modifies cb:f
+//@   ensures items: vCbOK(f) && err == nil ==> vSeqEq(vCbLog(f, "vals"), vCat(old(vCbLog(f, "vals")), splitS(pctDecode(specCookieValue(d.req, d.paramName)), ',')))
+//@   ensures ok:    vCbOK(f) && specHasCookie(d.req, d.paramName) && wellEscaped(specCookieValue(d.req, d.paramName)) ==> err == nil
+//@   ensures cbfail: old(vCbOK(f)) && !vCbOK(f) ==> err != nil
+//@   loop 0 vars rangeindex int
+//@   loop 0 invariant range: -1 <= rangeindex && rangeindex < len(splitS(pctDecode(specCookieValue(d.req, d.paramName)), ','))
+//@   loop 0 invariant mono:  vCbOK(f) == old(vCbOK(f))
+//@   loop 0 invariant acc:   vCbOK(f) ==> vSeqEq(vCbLog(f, "vals"), vCat(old(vCbLog(f, "vals")), splitS(pctDecode(specCookieValue(d.req, d.paramName)), ',')[:rangeindex+1]))
+
+// Query parameter decoder (uri/query_param_decoder.go), primitive and array shapes. url.Values as
+// net/url builds them never hold an empty value list (ParseQuery only appends): precondition.
+//@ func (d *queryParamDecoder) DecodeValue() (v string, err error)
+//@   requires style: validQueryStyle(d.style)
+//@   ensures form:   d.style == QueryStyleForm ==> (err == nil) == (vHas(d.values, d.paramName) && len(d.values[d.paramName]) == 1)
+//@   ensures value:  d.style == QueryStyleForm && err == nil ==> v == d.values[d.paramName][0]
+//@   ensures others: d.style != QueryStyleForm ==> err != nil
+
+// specQueryPieces: what the form decoder makes of the single value of a non-exploded array:
+// the comma pieces, except that the empty text is NO item (code comment: "do not decode ?param= as [\"\"]").
+func specQueryPieces(s string) []string {
+	if s == "" {
+		return nil
+	}
+	return splitS(s, ',')
+}
+
+//@ func (d *queryParamDecoder) DecodeArray(f func(d Decoder) error) (err error)
+//@   callback f(d Decoder) log vals d.(*constval).v
+//@   requires style: validQueryStyle(d.style)
+//@   modifies cb:f
+//@   ensures absent:  !vHas(d.values, d.paramName) ==> err != nil && vSeqEq(vCbLog(f, "vals"), old(vCbLog(f, "vals")))
+//@   ensures exploded: vCbOK(f) && err == nil && d.explode && d.style != QueryStyleDeepObject ==>
+//@                       vSeqEq(vCbLog(f, "vals"), vCat(old(vCbLog(f, "vals")), d.values[d.paramName]))
+//@   ensures form:     vCbOK(f) && err == nil && !d.explode && d.style == QueryStyleForm ==>
+//@                       len(d.values[d.paramName]) == 1 && vSeqEq(vCbLog(f, "vals"), vCat(old(vCbLog(f, "vals")), specQueryPieces(d.values[d.paramName][0])))
+//@   ensures pipe:     vCbOK(f) && err == nil && !d.explode && d.style == QueryStylePipeDelimited ==>
+//@                       len(d.values[d.paramName]) == 1 && vSeqEq(vCbLog(f, "vals"), vCat(old(vCbLog(f, "vals")), splitS(d.values[d.paramName][0], '|')))
+//@   ensures okForm:   vCbOK(f) && vHas(d.values, d.paramName) && d.style == QueryStyleForm && (d.explode || len(d.values[d.paramName]) == 1) ==> err == nil
+//@   ensures never:    d.style == QueryStyleDeepObject || (d.style == QueryStyleSpaceDelimited && !d.explode) ==> err != nil
+//@   ensures cbfail:   old(vCbOK(f)) && !vCbOK(f) ==> err != nil
+//@   loop 0 vars rangeindex int
+//@   loop 0 invariant range: -1 <= rangeindex && rangeindex < len(d.values[d.paramName])
+//@   loop 0 invariant mono:  vCbOK(f) == old(vCbOK(f))
+//@   loop 0 invariant acc:   vCbOK(f) ==> vSeqEq(vCbLog(f, "vals"), vCat(old(vCbLog(f, "vals")), d.values[d.paramName][:rangeindex+1]))
+//@   loop 1 vars rangeindex int
+//@   loop 1 invariant range: -1 <= rangeindex && rangeindex < len(splitS(d.values[d.paramName][0], ','))
+//@   loop 1 invariant mono:  vCbOK(f) == old(vCbOK(f))
+//@   loop 1 invariant acc:   vCbOK(f) ==> vSeqEq(vCbLog(f, "vals"), vCat(old(vCbLog(f, "vals")), splitS(d.values[d.paramName][0], ',')[:rangeindex+1]))
+//@   loop 2 vars rangeindex int
+//@   loop 2 invariant range: -1 <= rangeindex && rangeindex < len(d.values[d.paramName])
+//@   loop 2 invariant mono:  vCbOK(f) == old(vCbOK(f))
+//@   loop 2 invariant acc:   vCbOK(f) ==> vSeqEq(vCbLog(f, "vals"), vCat(old(vCbLog(f, "vals")), d.values[d.paramName][:rangeindex+1]))
+//@   loop 3 vars rangeindex int
+//@   loop 3 invariant range: -1 <= rangeindex && rangeindex < len(d.values[d.paramName])
+//@   loop 3 invariant mono:  vCbOK(f) == old(vCbOK(f))
+//@   loop 3 invariant acc:   vCbOK(f) ==> vSeqEq(vCbLog(f, "vals"), vCat(old(vCbLog(f, "vals")), d.values[d.paramName][:rangeindex+1]))
+//@   loop 4 vars rangeindex int
+//@   loop 4 invariant range: -1 <= rangeindex && rangeindex < len(splitS(d.values[d.paramName][0], '|'))
+//@   loop 4 invariant mono:  vCbOK(f) == old(vCbOK(f))
+//@   loop 4 invariant acc:   vCbOK(f) ==> vSeqEq(vCbLog(f, "vals"), vCat(old(vCbLog(f, "vals")), splitS(d.values[d.paramName][0], '|')[:rangeindex+1]))
+
+// Channel of a non-exploded form array through the REAL encoder and decoder (query location): the
+// decoder's callback receives exactly the items the caller gave the encoder - EXCEPT for the list
+// holding one empty string, which serializes to `p=` and decodes to no item at all (known finding
+// query-form-array-single-empty-item: the first harness is expected to fail its obligation).
+//@ func verifQueryFormArrayChannel(items []string, f func(d Decoder) error) (err error)
+//@   callback f(d Decoder) log vals d.(*constval).v
+//@   requires some: len(items) > 0
+//@   requires free: forall k in (0, len(items)) :: vTrig(items[k]) && noByte(items[k], ',')
+//@   modifies cb:f
+//@   uses splitJoin
+//@   ensures delivered: vCbOK(f) && err == nil ==> vSeqEq(vCbLog(f, "vals"), vCat(old(vCbLog(f, "vals")), items))
+//@   ensures accepted:  vCbOK(f) ==> err == nil
+func verifQueryFormArrayChannel(items []string, f func(d Decoder) error) error {
+	e := &queryParamEncoder{receiver: &receiver{typ: typeArray, items: items}, values: url.Values{}, paramName: "p", style: QueryStyleForm}
+	if err := e.serialize(); err != nil {
+		return err
+	}
+	d := &queryParamDecoder{values: e.values, paramName: "p", style: QueryStyleForm}
+	return d.DecodeArray(f)
+}
+
+// The same channel with the ambiguous value excluded: proved.
+//@ func verifQueryFormArrayChannelNonEmpty(items []string, f func(d Decoder) error) (err error)
+//@   callback f(d Decoder) log vals d.(*constval).v
+//@   requires some: len(items) > 0 && !(len(items) == 1 && items[0] == "")
+//@   requires free: forall k in (0, len(items)) :: vTrig(items[k]) && noByte(items[k], ',')
+//@   modifies cb:f
+//@   uses splitJoin
+//@   ensures delivered: vCbOK(f) && err == nil ==> vSeqEq(vCbLog(f, "vals"), vCat(old(vCbLog(f, "vals")), items))
+//@   ensures accepted:  vCbOK(f) ==> err == nil
+func verifQueryFormArrayChannelNonEmpty(items []string, f func(d Decoder) error) error {
+	e := &queryParamEncoder{receiver: &receiver{typ: typeArray, items: items}, values: url.Values{}, paramName: "p", style: QueryStyleForm}
+	if err := e.serialize(); err != nil {
+		return err
+	}
+	d := &queryParamDecoder{values: e.values, paramName: "p", style: QueryStyleForm}
+	return d.DecodeArray(f)
+}
+
 // Round trip of a header array at the text level: what serialize puts into the header line
 // (strings.Join of the items) splits back into exactly the items (lemma splitJoin), for a non-empty
 // list of items free of ','. The two ends are the contracts above; net/http carries the line.
@@ -1040,6 +1166,8 @@ func deepKey(param string, name string) string { return param + "[" + name + "]"
 //@   ensures unset: e.typ == typeNotSet ==> err == nil && (forall k string :: vHas(e.values, k) == old(vHas(e.values, k)) && vSeqEq(e.values[k], old(e.values[k])))
 //@   ensures value: e.typ == typeValue ==> err == nil && vHas(e.values, e.paramName) && vSeqEq(e.values[e.paramName], one1(e.val))
 //@   ensures array: e.typ == typeArray && e.explode ==> err == nil && vSeqEq(e.values[e.paramName], e.items)
+//@   ensures arrRefuse: e.typ == typeArray && !e.explode ==> (err == nil) == (forall k in (0, len(e.items)) :: vTrig(e.items[k]) && noByte(e.items[k], specQueryArraySep(e.style)))
+//@   ensures arrJoined: e.typ == typeArray && !e.explode && err == nil ==> vHas(e.values, e.paramName) && vSeqEq(e.values[e.paramName], one1(joinS(e.items, str1(specQueryArraySep(e.style)))))
 
 // ---------------------------------------------------------------------------
 // 2e. Channel harness (property C01, path parameter of primitive shape): what the generated client
